@@ -56,6 +56,12 @@ extern int fiber_sleep(uint32_t seconds, uint32_t useconds);
 // called when a file descriptor is closed
 extern void fiber_fd_closed(int fd);
 
+// closes a file descriptor: wakes the fibers waiting on it (their wait fails)
+// and calls do_close(fd) before any other fiber can start waiting on it, so a
+// fiber can never be left waiting on a descriptor that was closed under it.
+// returns the result of do_close(fd)
+extern int fiber_fd_close(int fd, int (*do_close)(int));
+
 #ifdef __cplusplus
 }
 #endif
